@@ -520,3 +520,56 @@ func HarnessC18Concrete() {
 	v, ok := c18Apply(c.f, c.in, c.p)
 	verifAssert(ok && v.String() == c.want, "formatting filter result")
 }
+
+// the same filters on inputs of another kind than the usual one: sequences joined with the empty
+// separator, padding of numbers (the width counts the characters of the printed value)
+func HarnessC18Mixed() {
+	switch verifChoice(3) {
+	case 0: // join with every separator of 0..1 characters over lists (and strings)
+		a, b, c := c18Word(1), c18Word(1), c18Word(1)
+		sep := symStringLen(0, 1)
+		if len(sep) == 1 {
+			verifAssume(sep[0] < 0x80)
+		}
+		v, ok := c18Apply("join", []string{a, b, c}, sep)
+		verifAssert(ok && v.String() == a+sep+b+sep+c, "join over a list of strings")
+		v, ok = c18Apply("join", []int{1, 22}, sep)
+		verifAssert(ok && v.String() == "1"+sep+"22", "join over a list of integers")
+		v, ok = c18Apply("join", a+b, sep)
+		verifAssert(ok && v.String() == a+sep+b, "join over the characters of a string")
+		v, ok = c18Apply("join", []string{}, sep)
+		verifAssert(ok && v.String() == "", "join over an empty list")
+	case 1: // ljust / rjust / center of an integer: the printed number padded to the width
+		x := int(verifByte()) // 0..255: 1..3 characters
+		w := int(verifByte() & 7)
+		s := itoa(x)
+		pad := w - len(s)
+		if pad < 0 {
+			pad = 0
+		}
+		v, ok := c18Apply("ljust", x, w)
+		verifAssert(ok && v.String() == s+c18Spaces(pad), "ljust of a number: padded on the right up to the width, counted on its printed form")
+		v, ok = c18Apply("rjust", x, w)
+		verifAssert(ok && v.String() == c18Spaces(pad)+s, "rjust of a number")
+		v, ok = c18Apply("center", x, w)
+		verifAssert(ok && len(v.String()) == len(s)+pad, "center of a number: total width")
+	default: // get_digit of something that is not a non-negative whole number returns the input
+		x := -1 - int(verifByte())
+		i := 1 + verifChoice(4)
+		v, ok := c18Apply("get_digit", x, i)
+		verifAssert(ok, "get_digit")
+		d := -x
+		for k := 1; k < i; k++ {
+			d /= 10
+		}
+		nd := 1
+		for t := -x; t >= 10; t /= 10 {
+			nd++
+		}
+		if i <= nd {
+			verifAssert(v.Integer() == d%10, "get_digit of a negative number: the i-th digit from the right")
+		} else {
+			verifAssert(v.Integer() == x, "get_digit beyond the digits of a negative number returns the input")
+		}
+	}
+}
